@@ -27,7 +27,7 @@ import sym  # noqa: E402
 
 KERNELS = {
     "C01": ["k_index_of", "k_str_slice", "k_str_insert", "k_random", "k_unique_id", "k_str_index_length"],
-    "C02": ["k_lock_loading", "k_lock_pairing"],
+    "C02": ["k_lock_loading", "k_lock_pairing", "k_load_css_lock"],
     "C03": ["k_load_module", "k_lock_pairing"],
     "C04": ["k_find_file", "k_do_find_file", "k_fsloader_find", "k_lock_pairing"],
     "C39": ["k_find_file", "k_do_find_file", "k_fsloader_find"],
@@ -413,6 +413,14 @@ STRUCTURAL_PROBES["k_lock_pairing"] = STRUCTURAL_PROBES["k_lock_loading"] + STRU
     (({"a.scss": '@use "m/lib";\n@use "m/mid";\n', "m/_lib.scss": ".lib { a: b }\n", "m/_mid.scss": '@use "lib";\n.mid { c: d }\n'}, "a.scss"), ".lib { a: b; } .mid { c: d; }"),
     (({"a.scss": '@use "a/mid" as am;\n@use "b/mid" as bm;\n', "a/_mid.scss": '@use "lib";\n.a-mid { v: lib.$v }\n', "a/_lib.scss": "$v: a;\n",
        "b/_mid.scss": '@use "lib";\n.b-mid { v: lib.$v }\n', "b/_lib.scss": "$v: b;\n"}, "a.scss"), ".a-mid { v: a; } .b-mid { v: b; }"),
+]
+STRUCTURAL_PROBES["k_load_css_lock"] = [
+    (({"r.scss": '@use "sass:meta";\n@include meta.load-css("a");\n', "_a.scss": '@use "sass:meta";\n.x { @include meta.load-css("b"); }\n',
+       "_b.scss": '@use "sass:meta";\n.y { @include meta.load-css("a"); }\n'}, "r.scss"), "<error>"),
+    (({"r.scss": '@use "sass:meta";\n@include meta.load-css("a");\n@include meta.load-css("a");\n', "_a.scss": ".x { y: z }\n"}, "r.scss"), ".x { y: z; } .x { y: z; }"),
+    (({"r.scss": '@use "sass:meta";\n@include meta.load-css("a");\n@include meta.load-css("b");\n', "_a.scss": '@use "sass:meta";\n@include meta.load-css("c");\n',
+       "_b.scss": '@use "sass:meta";\n@include meta.load-css("c");\n', "_c.scss": ".c { y: z }\n"}, "r.scss"), ".c { y: z; } .c { y: z; }"),
+    (({"a.scss": '@use "sass:meta";\n.x { @include meta.load-css("a"); }\n'}, "a.scss"), "<error>"),
 ]
 STRUCTURAL_PROBES["k_module_init"] = [
     (({"a.scss": '@use "lib";\n.main { c: d }\n', "_lib.scss": "/* hello */\n.lib { /* in rule */ a: b }\n"}, "[compressed]a.scss"), ".lib{a:b}.main{c:d}"),
